@@ -1527,7 +1527,13 @@ umod_2exp_signed_int(Type& to, const Type x, unsigned int exp,
     to = x;
   }
   else {
-    to = x & ((Type(1) << exp) - 1);
+    const Type v = x & ((Type(1) << exp) - 1);
+    // For x < 0 and exp == bits - 1 the result can exceed the maximum
+    // finite value of a policy that reserves special values.
+    if (PPL_GT_SILENT(v, (Extended_Int<To_Policy, Type>::max))) {
+      return set_pos_overflow_int<To_Policy>(to, dir);
+    }
+    to = v;
   }
   return V_EQ;
 }
